@@ -21,7 +21,7 @@ RULE = ("ragged (time, frequency-list) pairs: 0-8 frames of 0-4 pitches on an ex
 ASSUMPTIONS = [
     "oracle computes MIDI numbers as exact rationals and matches by brute force (/verif/oracles/multipitch.py); Hz given to mir_eval are 440*2^((m-69)/12)",
     "on an exact tie between two estimate frames either neighbour is accepted",
-    "time bases that np.allclose would call equal are either identical or differ by >= 1/16 s (lattice), so 'differs' is unambiguous",
+    "time bases that np.allclose would call equal are either identical or differ by >= 1/16 s (lattice) / by the different hops of the real-world grids, so 'differs' is unambiguous",
 ]
 
 
@@ -114,6 +114,8 @@ def pred_metrics(case, ctx):
             elif not any(g.tolist() == _hz([ef[i]])[0].tolist() for i in c):
                 raise Violation("reference time %r: resampled frame %r is not the nearest estimate frame (candidates %r)" % (rt[k], g.tolist(), c))
         ctx.event("different_timebase")
+        if case.get("grid") == "real":
+            ctx.event("real_world_time_grids")
         if len(rt) == len(et) and len(rt) >= 2 and all(abs(a - b) < (rt[1] - rt[0]) / 2 for a, b in zip(rt, et)):
             ctx.event("same_frames_shifted_by_less_than_half_a_hop")
         if outside:
@@ -127,7 +129,21 @@ def pred_metrics(case, ctx):
     return nt or (not same and (outside or tie) and bool(rt) and bool(et))
 
 
+@st.composite
+def pair_with_grid(draw):
+    """the lattice pair, or the same frames on real-world time grids: hop of 256 samples at 44.1 kHz against 10 ms (the oracle compares
+    the float stamps as exact rationals; a 256/44100 stamp never comes closer than 4.5e-7 s to a midpoint of the 10 ms grid)"""
+    c = draw(gp.multipitch_pair())
+    if draw(st.integers(0, 2)) == 0:
+        same = c["ref_time"] == c["est_time"]
+        g1, g2 = draw(st.sampled_from([(256 / 44100, 0.01), (0.01, 256 / 44100), (512 / 44100, 0.01)]))
+        c["ref_time"] = [round(t * 8) * g1 for t in c["ref_time"]]
+        c["est_time"] = [round(t * 8) * (g1 if same else g2) for t in c["est_time"]]
+        c["grid"] = "real"
+    return c
+
+
 SUBPROPS = [
-    SubProp("metrics_accounting", pred_metrics, strategy=gp.multipitch_pair, n=(2500, 60000), shards=(4, 16), floor=0.3,
+    SubProp("metrics_accounting", pred_metrics, strategy=pair_with_grid, n=(2500, 60000), shards=(4, 16), floor=0.3,
             rule="NT = a frame with 0 < TP < min(n_ref, n_est) or chroma TP > raw TP, or differing time base with an out-of-range time or exact tie"),
 ]
